@@ -140,6 +140,8 @@ def gen_case(rng, family='any'):
     if k < 0.45:
         dd = day_of(d0) + rng.randrange(0, max(1, nd))
         burn = dd * 86400 + rng.choice([0, CLOSE, CLOSE, CLOSE + 1, OPEN, 40000])
+    if 'dynamic' in uni and rng.random() < 0.4:
+        uni['nat'] = True          # 'no entry date' written as pandas NaT instead of None
     if 'dynamic' in uni and rng.random() < 0.3:
         # entry instants expressed in another time zone (same instants)
         uni['entry_tz'] = rng.choice(['America/New_York', 'Asia/Tokyo', 'Europe/London', 'Australia/Sydney'])
